@@ -270,3 +270,6 @@ def _norm_slot_and_round_type(ctx):
     from engine.kernelsibs import kernel_sibs
     ctx.require(kernel_sibs(ctx, prog) >= 20, 'too few kernel families found')
 
+    from engine.run import borrow
+    borrow(ctx, 'C18', ['CALC-RESTORE'], 'a query that leaves SFC_SET_NORM_DOUBLE changed alters every later double read')
+
